@@ -441,7 +441,7 @@ class Network(Cached):
         :arg  edge_list: [[i,j]] for edges i -> j
         """
         #  Convert to Numpy array and get number of nodes
-        edges = np.array(edge_list)
+        edges = np.array(edge_list, dtype=int).reshape(-1, 2)
 
         if n_nodes is None:
             N = edges.max() + 1
@@ -623,7 +623,7 @@ class Network(Cached):
         directed = graph.is_directed()
 
         #  Extract edge list
-        edges = np.array(graph.get_edgelist())
+        edges = np.array(graph.get_edgelist(), dtype=int).reshape(-1, 2)
 
         #  Symmetrize if undirected network
         if not directed:
